@@ -36,7 +36,7 @@ type LCase struct {
 
 func genLCase(t *rapid.T) LCase {
 	c := LCase{GPUType: rapid.SampledFrom([]string{"r9nano", "r9nano", "mi300a"}).Draw(t, "gputype")}
-	c.Prog = kgen.GenProgram(t, kgen.GenOpts{MaxItems: 2048, MaxOps: 14, LDS: true, Exit: true, Comm: rapid.Bool().Draw(t, "comm"), UniqueStores: true, TrailSLoad: true})
+	c.Prog = kgen.GenProgram(t, kgen.GenOpts{MaxItems: 2048, MaxOps: 14, LDS: true, Exit: true, Comm: rapid.Bool().Draw(t, "comm"), UniqueStores: true, TrailSLoad: true, SparseWGIDs: true})
 	if rapid.Bool().Draw(t, "small") {
 		c.CUPerSA = rapid.SampledFrom([]int{1, 1, 2}).Draw(t, "cupersa")
 		c.SAs = rapid.SampledFrom([]int{1, 1, 2}).Draw(t, "sas")
